@@ -537,6 +537,12 @@ func main() {
 	sb.WriteString("/-- fingerprints of the example store's container algorithms (examples/go-redisd/server/{list,set,zset}.go):\n")
 	sb.WriteString("function, FNV-1a 64 of its body printed without comments and with whitespace collapsed -/\n")
 	sb.WriteString("def exStoreFingerprints : List (String × Nat) := [" + strings.Join(exStoreFingerprints(repo), ", ") + "]\n\n")
+	sb.WriteString("/-- fingerprints of the connection loop, the lifecycle functions and the glob translation (redis/server.go, server_handler.go, glob/glob.go) -/\n")
+	sb.WriteString("def serverFingerprints : List (String × Nat) := [" + strings.Join(append(fingerprints(repo, "redis", []string{"server.go", "server_handler.go"}, map[string]bool{
+		"Server.serveConn": true, "Server.dispatch": true, "Server.handleMessage": true, "Server.handleArrayMessage": true, "Server.responseMessage": true,
+		"Server.receive": true, "Server.executeCommand": true, "upperASCII": true,
+		"Server.Start": true, "Server.Stop": true, "Server.Restart": true, "Server.open": true, "Server.close": true, "Server.serve": true, "Server.tlsServe": true, "Server.startConn": true}),
+		fingerprints(repo, "redis/glob", []string{"glob.go"}, map[string]bool{"regexpFromGlob": true, "Compile": true})...), ", ") + "]\n\n")
 	sb.WriteString("/-- fingerprints of the parser and serializer functions of redis/proto that the model transcribes -/\n")
 	sb.WriteString("def protoFingerprints : List (String × Nat) := [" + strings.Join(append(protoFingerprints(repo), executorFingerprints(repo, "redis/core_commander.go", []string{"ZREVRANGE", "ZREVRANGEBYSCORE"})...), ", ") + "]\n\n")
 	sb.WriteString("end GoRedis.Generated\n")
